@@ -47,7 +47,7 @@ class LeaveOneOutPseudoLikelihood(ExactMarginalLogLikelihood):
         self.likelihood = likelihood
         self.model = model
 
-    def forward(self, function_dist: MultivariateNormal, target: Tensor, *params) -> Tensor:
+    def forward(self, function_dist: MultivariateNormal, target: Tensor, *params, **kwargs) -> Tensor:
         r"""
         Computes the leave one out likelihood given :math:`p(\mathbf f)` and :math:`\mathbf y`
 
@@ -56,7 +56,7 @@ class LeaveOneOutPseudoLikelihood(ExactMarginalLogLikelihood):
         :param torch.Tensor target: :math:`\mathbf y` The target values
         :param dict kwargs: Additional arguments to pass to the likelihood's forward function.
         """
-        output = self.likelihood(function_dist, *params)
+        output = self.likelihood(function_dist, *params, **kwargs)
 
         # Remove NaN values if enabled (as ExactMarginalLogLikelihood.forward does)
         if settings.observation_nan_policy.value() == "mask":
